@@ -2,6 +2,7 @@ package scanner
 
 import (
 	"bytes"
+	"strconv"
 	"strings"
 
 	"github.com/z7zmey/php-parser/pkg/conf"
@@ -244,6 +245,17 @@ func (lex *Lexer) ungetStr(s string) {
 func (lex *Lexer) ungetCnt(n int) {
 	lex.p = lex.p - n
 	lex.te = lex.te - n
+}
+
+// invalidOctal reports what PHP 7 calls an "Invalid numeric literal": a literal with a leading zero is octal and takes
+// the digits 0-7 only (`09`, `0778`). PHP 5 reads the valid prefix silently, so nothing is reported there.
+func (lex *Lexer) invalidOctal(base int, err error) {
+	if base != 8 || err == nil || lex.phpVersion == nil || lex.phpVersion.Major < 7 {
+		return
+	}
+	if ne, ok := err.(*strconv.NumError); ok && ne.Err == strconv.ErrSyntax {
+		lex.error("Invalid numeric literal")
+	}
 }
 
 func (lex *Lexer) error(msg string) {
